@@ -121,7 +121,8 @@ class ByteArray(SimpleModel):
         joiner = type(value)()
         try:
             return (b64decode(joiner.join(value)),)
-        except TypeError:
+        except (TypeError, ValueError):
+            # binascii.Error is a ValueError
             raise ValidationError(value)
 
     @classmethod
@@ -142,7 +143,8 @@ class ByteArray(SimpleModel):
             else:
                 return (urlsafe_b64decode(value),)
 
-        except TypeError as e:
+        except (TypeError, ValueError) as e:
+            # binascii.Error is a ValueError
             logger.exception(e)
 
             if len(value) < 100:
@@ -156,9 +158,14 @@ class ByteArray(SimpleModel):
 
     @classmethod
     def from_hex(cls, value):
-        if isinstance(value, six.text_type):
-            value = value.encode('ascii')
-        return (unhexlify(_bytes_join(value)),)
+        try:
+            if isinstance(value, six.text_type):
+                value = value.encode('ascii')
+            return (unhexlify(_bytes_join(value)),)
+
+        except (TypeError, ValueError):
+            # binascii.Error and UnicodeEncodeError are ValueErrors
+            raise ValidationError(value)
 
 
 def _default_binary_encoding(b):
